@@ -2144,6 +2144,15 @@ impl Interpreter {
                     }
                     return Ok(binding.value.clone());
                 }
+                // Body of a namespace: exported members are properties of the namespace object
+                if let Some(ns) = &data.namespace_object
+                    && let Some(prop) = ns
+                        .borrow()
+                        .get_own_property(&PropertyKey::String(name.cheap_clone()))
+                    && !prop.is_accessor()
+                {
+                    return Ok(prop.value.clone());
+                }
                 current = data.outer.cheap_clone();
             } else {
                 break;
@@ -2281,6 +2290,16 @@ impl Interpreter {
                     binding.value = value;
                     return Ok(());
                 }
+                // Body of a namespace: assignment to an exported variable writes the property
+                if let Some(ns) = data.namespace_object.clone() {
+                    let prop_key = PropertyKey::String(name.cheap_clone());
+                    let is_export = ns.borrow().get_own_property(&prop_key).is_some();
+                    if is_export {
+                        drop(env_ref);
+                        ns.borrow_mut().set_property(prop_key, value);
+                        return Ok(());
+                    }
+                }
                 let outer = data.outer.clone();
                 drop(env_ref);
                 current = outer;
@@ -2301,6 +2320,16 @@ impl Interpreter {
         self.env = new_env;
         self.env_guards.push(new_guard);
         old_env
+    }
+
+    /// Push the scope of a namespace body: like `push_scope`, and names that are not bound in the
+    /// new scope resolve to own properties of `namespace_object`
+    pub fn push_namespace_scope(&mut self, namespace_object: Gc<JsObject>) -> EnvRef {
+        let saved = self.push_scope();
+        if let Some(data) = self.env.borrow_mut().as_environment_mut() {
+            data.namespace_object = Some(namespace_object);
+        }
+        saved
     }
 
     /// Pop scope by restoring saved environment
